@@ -24,11 +24,15 @@ class C05(CheckBase):
             "comment/reference to 40..10^5 characters, parenthesis insert/delete, nesting to 5000, complex record with up to 300 parts, illegal "
             "entity combinations} placed modulo the file's bytes/tokens, read under a seeded delivery schedule, then the resulting population is "
             "written. quick additionally enumerates EVERY truncation offset of one small file, thorough of every file <= 2 KiB it generates (reported "
-            "under truncation_sweep). non-trivial = the fault changed the bytes and the reader got past the file's first token; "
+            "under truncation_sweep). One plan in 1250 is a SCALING pair ('time proportional to the input'): the records of a small population, fault-free or "
+            "with one fault in every copy, are replicated K and 16K times with shifted ids (about 2000 and 32000 instances) and the CPU cost of "
+            "read+write is compared (minimum of two runs each; judged only when the small run costs >= 20 ms): a ratio above 48 (3x the size ratio; "
+            "measured 7..19 on the unchanged tree, 55..140 with an instance manager that scans on append) is C05/superlinear. non-trivial = the fault changed the bytes and the reader got past the file's first token; "
             "distinct = hash(schema, fault kinds + token class hit, delivery class, how the run ended)")
     components_real = ["STEPfile reader/writer incl. working-session paths", "generated schema library", "STEPcomplex matcher", "libstdc++ basic_filebuf"]
     components_stubbed = ["read(2) byte count (delivery schedule)", "time(2)", "stored bytes damaged by the simulated disk before the read"]
     assumptions = ["virtual CPU budget per run = 2 s + 100 us per input byte (>= 1000x the fault-free cost): only non-termination or a super-linear blow-up trips it",
+                   "the scaling probe measures real CPU time of the sanitizer build (the only observation in this check that is not a pure function of the plan); the limit leaves a factor 2.5 above the largest linear ratio measured under load, and only clearly quadratic behaviour exceeds it",
                    "memory safety / UB as observed by gcc 12 AddressSanitizer + UndefinedBehaviorSanitizer (no MSan: uninstrumented libstdc++)",
                    "an exception escaping stepcode counts as abort (std::terminate in an application)"]
 
